@@ -39,6 +39,11 @@ class Sym:
         cs = set()
         for c, _lo, _hi in self.lang:
             cs |= c
+        if not self.lang and self.kind in ("int", "num", "float"):
+            # the text of a number: digits, a sign unless known positive; a real may use a point, an exponent, inf, nan
+            cs = set("0123456789") | (set() if self.positive else {"-"})
+            if self.kind != "int":
+                cs |= set(".e+-infa")
         return cs
 
     @property
@@ -2123,7 +2128,7 @@ class Ev:
                     return True
                 if n == "bool" and isinstance(v, bool):
                     return True
-                if n == "float" and isinstance(v, float):
+                if n == "float" and (isinstance(v, float) or (isinstance(v, Sym) and v.kind == "float")):
                     return True
                 if n == "dict" and isinstance(v, DictV):
                     return True
